@@ -148,6 +148,12 @@ func wfSerializers(r *rand.Rand) []serializer {
 		enc := enc
 		ss = append(ss, serializer{"mice.Encode " + string(enc), func(w io.Writer) (int64, bool, error) { _, err := enc.Encode(w, payload, 16); return 0, false, err }})
 	}
+	// many records: code paths that depend on the NUMBER of records (buffering, batching) are taken only by large bodies
+	manyRec := randBytes(r, 520)
+	ss = append(ss, serializer{"mice.Encode 520 records", func(w io.Writer) (int64, bool, error) {
+		_, err := mice.Draft03Encoding.Encode(w, manyRec, 1)
+		return 0, false, err
+	}})
 	ss = append(ss, serializer{"mice.Encode empty draft2", func(w io.Writer) (int64, bool, error) {
 		_, err := mice.Draft02Encoding.Encode(w, nil, 16)
 		return 0, false, err
@@ -196,6 +202,9 @@ func wfRun(args []string) error {
 		for k := 0; k <= len(O); k++ {
 			if !thorough && len(O) > 1500 && k > 64 && k < len(O)-64 && k%3 != 0 {
 				continue
+			}
+			if len(O) > 8000 && k > 16 && k < len(O)-16 && k%(len(O)/24) != 0 && !(thorough && k%97 == 0) {
+				continue // large outputs: both ends and evenly spaced positions
 			}
 			for _, mode := range []string{"errAtCall", "shortWrite"} {
 				for _, dest := range []string{"norf", "rf"} {
